@@ -137,6 +137,7 @@ def check(ctx):
     ctx.rule("R4", "the step of CommandPipeline.end() that runs the last stage to its end always closes it and marks the pipeline ended (finally) - found by role: end() or a helper on its way to the consumer of tee_stdout(); the alias thread always closes /dev/null; ProcProxy.wait closes every handle it opened", floor=4)
     ctx.rule("R5", "pipe ends are closed idempotently: the fd field is cleared under the lock before os.close; wrappers never own the fd; fds 0-2 and sys.std* are never closed", floor=7)
     ctx.rule("R7", "what a command edits in place is its own: the overlay mapping a stage receives is created for that stage (SubprocSpec.run() writes __ALIAS_NAME into it, handlers may add keys) - never an object that outlives the command", floor=1)
+    ctx.rule("R9", "a redirection of a process-wide stream that is entered on worker threads is installed once and removed once, however the threads overlap: every context manager in ProcProxyThread.run that stores into sys.<stream> counts its users under a lock (install on 0 -> 1, restore on 1 -> 0); a manager that saves what it finds and restores what it saved, per thread, leaves the dispatcher installed for good when two alias threads overlap and end in the order they started", floor=2)
     ctx.rule("R8", "whoever replaced sys.stdout / sys.stderr puts the saved stream back unconditionally: on every path of the restore step (_TeeStd._replace_std, _RedirectStream.__exit__) the saved stream is stored into sys.<name>, unless the path is governed by 'nothing was installed' (`saved is None`) - a restore that first asks who is installed now is skipped whenever two redirections overlap and end out of order, and the session keeps the wrong stream", floor=2)
     ctx.rule("R6", "process-wide state (cwd, sys.std*, terminal foreground group) is changed in xonsh/procs only inside a paired construct; every way out of CommandPipeline.end (explicit raises included) hands the terminal back", floor=3)
 
@@ -492,6 +493,7 @@ def check(ctx):
 
     _oo(ctx, ctx.repo.module("xonsh/procs/specs.py"), rule="R7")
     _stream_restore_unconditional(ctx)
+    _threaded_redirect_counted(ctx)
 
 
 
@@ -515,6 +517,66 @@ def _stream_restore_unconditional(ctx):
                 ctx.ob("R8", st, "a path through the restore step stores the saved stream into sys.<name>" + (" (or nothing was installed)" if not restored else ""), ok, key=f"{q}|restore-skipped|{';'.join(sorted(('' if pol else 'not ') + t for t, pol in lits))[:120]}", where=loc(fn), detail=None if ok else "path taken when: " + "; ".join(("" if pol else "not ") + t for t, pol in lits))
         if n_paths == 0:
             raise AnalysisError(f"{st}: no path enumerated")
+
+
+def _threaded_redirect_counted(ctx):
+    from ..engine.loader import class_methods
+
+    PXY = "xonsh/procs/proxies.py"
+    px = ctx.repo.module(PXY)
+    run = px.func("ProcProxyThread.run")
+    st = f"{PXY}:ProcProxyThread.run"
+
+    def stores_sys(fn):
+        return [c for c in calls_in(fn, local=False) if call_name(c) == "setattr" and c.args and unparse(c.args[0]) == "sys"] + [a for a in ast.walk(fn) if isinstance(a, ast.Assign) and any(unparse(t).startswith("sys.std") for t in a.targets)]
+
+    def resolve(e):
+        """context expression -> (label, [functions that run on enter/exit]) for managers of the repository"""
+        if not isinstance(e, ast.Call):
+            return None
+        nm = call_name(e) or ""
+        tail = nm.split(".")[-1]
+        cands = []
+        for rel in (PXY, "xonsh/tools.py"):
+            m = ctx.repo.module(rel)
+            if m.has(tail):
+                d = m.get(tail)
+                if isinstance(d, ast.ClassDef):
+                    ms = {}
+                    for c_ in [d] + [m.get(unparse(b)) for b in d.bases if m.has(unparse(b))]:
+                        if isinstance(c_, ast.ClassDef):
+                            for k, v in class_methods(c_).items():
+                                ms.setdefault(k, v)
+                    cands = [ms[k] for k in ("__enter__", "__exit__") if k in ms]
+                elif isinstance(d, FuncTypes):
+                    cands = [d]
+            for cq, cf in m.functions():
+                if "." in cq and cq.split(".")[-1] == tail and isinstance(e.func, ast.Attribute):
+                    cands = cands or [cf]
+        return (nm, cands) if cands else None
+
+    n = 0
+    for w in [x for x in walk_local(run) if isinstance(x, (ast.With, ast.AsyncWith))]:
+        for it in w.items:
+            r_ = resolve(it.context_expr)
+            if r_ is None:
+                continue
+            nm, fns = r_
+            sites = [(f_, s_) for f_ in fns for s_ in stores_sys(f_)]
+            if not sites:
+                continue
+            n += 1
+            ok = True
+            why = None
+            for f_, s_ in sites:
+                locked = any(isinstance(a, ast.With) and any("lock" in unparse(i.context_expr).lower() for i in a.items) for a in ancestors(s_))
+                counted = any(isinstance(a, ast.If) and any(isinstance(c_, ast.Compare) and any(const_value(k, None) in (0, 1) for k in [c_.left] + c_.comparators) for c_ in ast.walk(a.test)) for a in ancestors(s_))
+                if not (locked and counted):
+                    ok = False
+                    why = f"`{short(s_, 50)}` in {getattr(f_, '_xv_qual', f_.name)}: " + ("not under a lock" if not locked else "not governed by a user count reaching 0 / leaving 0")
+            ctx.ob("R9", st, f"`{short(it.context_expr, 50)}` (entered on the alias's worker thread, stores into sys.<stream>) is reference-counted under a lock", ok, key=f"run|per-thread-save-restore|{nm}", where=loc(it.context_expr), detail=why)
+    if n == 0:
+        raise AnalysisError(f"{st}: no context manager that redirects a process-wide stream found around the alias call")
 
 META = {
     "technique": "static analysis: install/restore set equality over intra-class call-graph reachability, exception-edge must-pass-through, handler-shape checks on the failure branches, sibling closer slot sets, CFG dominance under the lock",
